@@ -425,9 +425,23 @@ func c01MultiDefs(c *lib.Ctx, idx uint64) {
 		p.HeaderSize = 12
 	}
 	ft := lib.FileTypes[idx%uint64(len(lib.FileTypes))].Type
-	p.Records = append(p.Records,
-		ref.Record{IsDef: true, Local: 0, Global: 0, Fields: []ref.FieldDef{{Num: 0, Size: 1, Base: 0}}},
-		ref.Record{Local: 0, Data: [][]byte{{ft}}})
+	fid := ref.Record{IsDef: true, Local: 0, Global: 0, Fields: []ref.FieldDef{{Num: 0, Size: 1, Base: 0}}}
+	fdata := ref.Record{Local: 0, Data: [][]byte{{ft}}}
+	if rng.Chance(1, 2) {
+		// the leading file_id with further fields, listed by the profile or not
+		for k := 1 + rng.Intn(3); k > 0; k-- {
+			bt := ref.BaseTypes[rng.Intn(len(ref.BaseTypes))]
+			fd := ref.FieldDef{Num: byte(1 + rng.Intn(254)), Size: byte(bt.Size * (1 + rng.Intn(2))), Base: bt.Code}
+			if rng.Chance(1, 2) {
+				fid.Fields = append(fid.Fields, fd)
+				fdata.Data = append(fdata.Data, rng.Bytes(int(fd.Size)))
+			} else {
+				fid.Fields = append([]ref.FieldDef{fd}, fid.Fields...)
+				fdata.Data = append([][]byte{rng.Bytes(int(fd.Size))}, fdata.Data...)
+			}
+		}
+	}
+	p.Records = append(p.Records, fid, fdata)
 	var defs [16]*ref.Record
 	nd := 1 + rng.Intn(4)
 	for d := 0; d < nd; d++ {
